@@ -108,3 +108,59 @@ theorem gconv_unc (X Y : GFn) (hb : kw.bcoh ≠ 0) (hrho : 0 < kw.rho) (r y : Ve
        try conv_close)
 
 end
+
+section
+variable (kw : Kw ℝ) (junk : Junk ℝ)
+
+/-! The S(Q) ↔ Q[S(Q)−1] and g(r) ↔ G(r) pairs do not involve ⟨b_coh⟩²: the same refinements without `kw.bcoh ≠ 0` -/
+
+theorem rconv_val_SF (X Y : RFn) (hX : X = .S ∨ X = .F) (hY : Y = .S ∨ Y = .F) (q y : Vec ℝ) (dy : Option (Vec ℝ))
+    (hlen : q.length = y.length) :
+    (GenTable.rconv X Y kw junk q y dy).1 = List.zipWith (Spec.rconv kw X Y) q y := by
+  rcases hX with rfl | rfl <;> rcases hY with rfl | rfl <;> simp only [GenTable.rconv, GenTable.ident] <;>
+    first
+    | rfl
+    | (pointwise2 q y hlen [Spec.rconv]
+       try conv_close)
+
+theorem gconv_val_gG (X Y : GFn) (hX : X = .g ∨ X = .G) (hY : Y = .g ∨ Y = .G) (hrho : 0 < kw.rho) (r y : Vec ℝ)
+    (dy : Option (Vec ℝ)) (hlen : r.length = y.length) :
+    (GenTable.gconv X Y kw junk r y dy).1 = List.zipWith (Spec.gconv kw X Y) r y := by
+  have hpi := Real.pi_pos
+  rcases hX with rfl | rfl <;> rcases hY with rfl | rfl <;> simp only [GenTable.gconv, GenTable.ident] <;>
+    first
+    | rfl
+    | (pointwise2 r y hlen [Spec.gconv]
+       try (simp (disch := positivity) only [mul_pos_iff_of_pos_left])
+       try conv_close)
+
+theorem rconv_unc_SF (X Y : RFn) (hX : X = .S ∨ X = .F) (hY : Y = .S ∨ Y = .F) (q y : Vec ℝ) (dy : Option (Vec ℝ))
+    (hlen : q.length = y.length) (hd : ∀ d, dy = some d → q.length = d.length) :
+    (GenTable.rconv X Y kw junk q y dy).2
+      = List.zipWith (fun q e => Spec.rslope kw X Y q * e) q (dy.getD (Vec.zerosLike y)) := by
+  rcases dy with _ | d
+  · rcases hX with rfl | rfl <;> rcases hY with rfl | rfl <;> simp only [GenTable.rconv, GenTable.ident, Option.getD] <;>
+      (pointwise2 q y hlen [Spec.rslope]
+       try conv_close)
+  · have hlen' := hd d rfl
+    rcases hX with rfl | rfl <;> rcases hY with rfl | rfl <;> simp only [GenTable.rconv, GenTable.ident, Option.getD] <;>
+      (pointwise2 q d hlen' [Spec.rslope]
+       try conv_close)
+
+theorem gconv_unc_gG (X Y : GFn) (hX : X = .g ∨ X = .G) (hY : Y = .g ∨ Y = .G) (hrho : 0 < kw.rho) (r y : Vec ℝ)
+    (dy : Option (Vec ℝ)) (hlen : r.length = y.length) (hd : ∀ d, dy = some d → r.length = d.length) :
+    (GenTable.gconv X Y kw junk r y dy).2
+      = List.zipWith (fun r e => Spec.gslope kw X Y r * e) r (dy.getD (Vec.zerosLike y)) := by
+  have hpi := Real.pi_pos
+  rcases dy with _ | d
+  · rcases hX with rfl | rfl <;> rcases hY with rfl | rfl <;> simp only [GenTable.gconv, GenTable.ident, Option.getD] <;>
+      (pointwise2 r y hlen [Spec.gslope]
+       try (simp (disch := positivity) only [mul_pos_iff_of_pos_left])
+       try conv_close)
+  · have hlen' := hd d rfl
+    rcases hX with rfl | rfl <;> rcases hY with rfl | rfl <;> simp only [GenTable.gconv, GenTable.ident, Option.getD] <;>
+      (pointwise2 r d hlen' [Spec.gslope]
+       try (simp (disch := positivity) only [mul_pos_iff_of_pos_left])
+       try conv_close)
+end
+
